@@ -141,6 +141,7 @@ def main():
 
     # ---------------- 2. correspondence
     cases, impl, model = [], [], []
+    corpus, corpus_set = [], set()
     fails = []
     tie_fails = []
     try:
@@ -152,12 +153,29 @@ def main():
         cdir = os.path.join(vlib.VERIF, "corpus", prop + ".txt")
         if os.path.exists(cdir):
             corpus = [l.strip() for l in open(cdir) if l.strip() and not l.startswith("#")]
-        cases = corpus + list(mod.gen(rng, a.tier))
+        gen_cases = list(mod.gen(rng, a.tier))
+        corpus = [c for c in dict.fromkeys(corpus) if c not in set(gen_cases)]
+        corpus_set = set(corpus)
+        cases = corpus + gen_cases
         impl, model = getattr(mod, "run_both", vlib.run_both)(cases, prop, per_shard_timeout=getattr(mod, "SHARD_TIMEOUT", 30))
         for c, il, ml in zip(cases, impl, model):
             if ml.startswith(("MODEL-", "BADCASE", "CRASH", "HANG", "MISSING")) or il.startswith(("BADCASE", "MISSING")):
                 raise Broken("correspondence: case not executable on %s" % ("model" if not il.startswith(("BADCASE", "MISSING")) else "harness"),
                              "case: %s\nimpl: %s\nmodel: %s" % (c[:500], il[:300], ml[:300]))
+            if c in corpus_set:
+                # corpus lines (minimized earlier failures) need not have the shape the module's generator produces:
+                # they are decided by the plain comparison with the model (and the panic / hang markers)
+                if il.startswith(("PANIC", "HANG", "CRASH")):
+                    why = "implementation %s" % il.split(" ")[0]
+                else:
+                    pj = getattr(mod, "project", lambda x: x)
+                    try:
+                        why = None if (ml == "-" or pj(il) == pj(ml)) else "implementation and model disagree"
+                    except Exception:
+                        why = None if il == ml else "implementation and model disagree"
+                if why:
+                    fails.append((c, il, ml, why))
+                continue
             why = mod.oracle(c, il, ml)
             if why and why.startswith("implementation and model disagree") and hasattr(mod, "tie_covered") and mod.tie_covered(c):
                 # the model/code correspondence broke on this case.  Ask the module's independent oracle
@@ -224,14 +242,19 @@ def main():
     # ---------------- 4. evidence
     nontriv = set()
     for c, il in zip(cases, impl):
-        if mod.nontrivial(c, il):
-            nontriv.add(c)
+        try:
+            if mod.nontrivial(c, il):
+                nontriv.add(c)
+        except Exception:
+            pass
     cov["evaluations"] = len(cases)
     cov["distinct_nontrivial"] = len(nontriv)
     cov["rule"] = getattr(mod, "RULE", "")
     cov["samples"] = [{"case": c[:400], "impl": il[:300]} for c, il in list(zip(cases, impl))[:: max(1, len(cases) // 5)][:6]]
     if hasattr(mod, "distribution"):
-        cov["distribution"] = mod.distribution(cases, impl, model)
+        k0 = len(corpus) if cases else 0
+        cov["distribution"] = mod.distribution(cases[k0:], impl[k0:], model[k0:])
+        cov["corpus_cases"] = k0
     cov["repo_fingerprint"] = vlib.repo_fingerprint()
     if getattr(mod, "EXHAUSTIVE", False):
         cov["exhaustive"] = True
